@@ -145,11 +145,44 @@ def gen_sibling(rng, variant=None):
     return p, [feat], losses
 
 
-def gen_case(rng, idx):
+def gen_zero_size(rng, variant):
+    """leaves WITHOUT ELEMENTS (shape (0,) or (0, 2): an empty bias, a disabled embedding table) that the
+    tensors are computed from all the same (torch.cat): they own no column of the Jacobian, and are leaves
+    requiring grad like any other -- the explicit call gives them an empty .grad, and reached both through and
+    around the features they make the default sets overlap"""
+    p = ajlib.Program()
+    two_d = variant % 2 == 1
+    n = rng.choice([2, 3])
+    sh, zsh = ((n, 2), (0, 2)) if two_d else ((n,), (0,))
+    vals = lambda: [rng.choice([-3, -2, -1, 1, 2, 3]) for _ in range(numel(sh))]  # noqa: E731
+    x = p.leaf(sh, vals(), True)
+    z = p.leaf(zsh, [], True)
+    c = p.op("cat", [x, z] if rng.random() < 0.5 else [z, x])
+    kind = ["backward", "mtl", "mtl_overlap"][variant % 3]
+    if kind == "backward":
+        w = p.leaf(sh, vals(), True)
+        y = p.op("mul", [c, w])
+        outs = [y, p.op("sum", [p.op("square", [c])])] if rng.random() < 0.5 else [y]
+        return p, "backward", {"tensors": outs}
+    f = p.op("scale", [c], c=rng.choice([2, 3]))
+    losses = []
+    for ti in range(rng.randint(2, 3)):
+        w = p.leaf(sh, vals(), True)
+        a = p.op("mul", [f, w])
+        if ti == 0:
+            z2 = z if kind == "mtl_overlap" else p.leaf(zsh, [], True)
+            a = p.op("cat", [a, z2])
+        losses.append(p.op("sum", [a]))
+    return p, "mtl", {"features": [f], "losses": losses, "retain": True}
+
+
+def gen_case(rng, idx, zero_variant=None):
     # eight slots per round: the multi-output family (mode 6) twice, its three variants in turn (the "around"
     # variant, whose outcome depends on the order in which the walk meets the two edges, twice as often)
-    mode = [0, 1, 2, 3, 4, 5, 6, 6][idx % 8]
-    if mode in (0, 1):
+    mode = [0, 1, 2, 3, 4, 5, 6, 6][idx % 8] if zero_variant is None else 7
+    if mode == 7:
+        prog, kind, spec = gen_zero_size(rng, zero_variant)
+    elif mode in (0, 1):
         outs = []
         while not outs:
             prog = ajlib.gen_program(rng)
@@ -234,6 +267,7 @@ def run(chk):
     rng = random.Random(12000 + chk.seed)
     n = N_QUICK if chk.tier == "quick" else N_THOROUGH
     cases = [gen_case(rng, i) for i in range(n)]
+    cases += [gen_case(rng, n + v, zero_variant=v) for v in range(6 if chk.tier == "quick" else 30)]
     chk.cov["rule"] = ("random DAGs (generic programs, chains of depth 8-30 with diamonds / unbind / detach "
                        "side branches, heads sharing an interior node, trunk/heads programs with and without "
                        "leaves reached around the features); model's walk on the node graph read off the "
